@@ -89,6 +89,19 @@ let run line =
                  base := cut
                end) cuts;
              out := Printf.sprintf "docs=%s final=%s" (if Buffer.length b = 0 then "-" else Buffer.contents b) !last :: !out
+           | 'V' | 'W' ->
+             (* json_tokener_parse_verbose / json_tokener_parse: a fresh default parser (depth 32, no flags) on the
+                C string; a value is returned only with status success *)
+             (match tok_new (z_of_int 32) false false false with
+              | None -> out := "NEWFAIL" :: !out
+              | Some tf ->
+                (match parse_ex_cstr strtod_bits tf (bytes_of_hex body) with
+                 | PRFuel -> out := "FUEL" :: !out
+                 | PR (t', ret) ->
+                   let v = (match t'.err, ret with TE_success, Some v -> string_of_jv v | _ -> "-") in
+                   (* json_tokener_parse cannot tell a parsed null from a failure: both are the NULL pointer *)
+                   let vw = if v = "n" then "-" else v in
+                   out := (if op.[0] = 'V' then Printf.sprintf "%s %s" (err_name t'.err) v else Printf.sprintf "parse %s" vw) :: !out))
            | 'D' ->
              (* json_object_from_fd_ex(fd, depth) on the given bytes: depth -1 = default 32; the
                 accumulated bytes are parsed in one call with their explicit length *)
